@@ -237,6 +237,12 @@ impl AsyncWrite for UtpStreamWriteHalf {
 
         g.writer_shutdown = true;
         update_optional_waker(&mut g.writer_waker, cx);
+        // The connection task has to see the shutdown to send the FIN: wake it, like
+        // dropping the writer does.
+        if let Some(w) = g.dispatcher_waker.take() {
+            drop(g);
+            w.wake();
+        }
         Poll::Pending
     }
 }
